@@ -338,6 +338,152 @@ func c05run(r *report.Run) {
 	thorough := r.Tier == "thorough"
 	var jobs []c05job
 	prefixes := []string{"", "-", "^", "!"}
+	total := 0
+	base := 0
+	process := func() {
+		jobs := jobs // the current batch
+		par.DoChunk(len(jobs), 256, func(k0 int) {
+			k := base + k0
+			_ = k
+			if r.Expired() {
+				return
+			}
+			j := jobs[k0]
+			e, err := parser.ParseExpr(j.src)
+			if err != nil {
+				return // e.g. "a - -b" is fine, but "a & &b"-like strings never arise; anything go/parser rejects is not Go
+			}
+			var typings []map[string]c05type
+			typings = append(typings, c05typings(e, tInt)...)
+			typings = append(typings, c05typings(e, tBool)...)
+			if len(typings) == 0 {
+				return
+			}
+			// structure
+			want := c05tree(e)
+			got, status := c05goatTree(j.src)
+			r.Eval(1)
+			if got != want {
+				r.Fail(&report.Case{Kind: "structure", Key: j.src, Input: c05replay{Src: j.src, Struct: true}, Want: want, Got: got + " [" + status + "]"})
+			}
+			// alternatives that parse to a different structure
+			var alts []ast.Expr
+			for _, a := range c05alts(j.flat.units, j.flat.ops) {
+				ae, err := parser.ParseExpr(a)
+				if err != nil {
+					continue
+				}
+				if c05tree(ae) != want {
+					alts = append(alts, ae)
+				}
+			}
+			if len(alts) > 0 && len(j.flat.ops) >= 2 {
+				r.Nontrivial(j.src)
+			}
+			if k%9973 == 0 {
+				r.Sample(map[string]any{"expr": j.src, "go_grouping": want, "goatlang_tree": got, "typings": len(typings), "alternative_groupings": len(alts)})
+			}
+			// values
+			for _, ty := range typings {
+				names := make([]string, 0, len(ty))
+				for _, n := range c05names {
+					if _, ok := ty[n]; ok {
+						names = append(names, n)
+					}
+				}
+				// which alternatives are well-typed under this typing
+				var live []ast.Expr
+				for _, a := range alts {
+					if c05welltyped(a, ty) {
+						live = append(live, a)
+					}
+				}
+				// enumerate assignments in a fixed order until every live alternative is distinguished
+				dist := make([]bool, len(live))
+				remaining := len(live)
+				idx := make([]int, len(names))
+				used := 0
+				first := true
+				for tries := 0; tries < 3000; tries++ {
+					env := map[string]c05val{}
+					for q, n := range names {
+						if ty[n] == tBool {
+							env[n] = c05val{b: idx[q]%2 == 1, t: tBool}
+						} else {
+							env[n] = c05val{i: c05intPool[(idx[q]+3)%len(c05intPool)]} // start at 1,2,3,...
+						}
+					}
+					wantV := c05evalSafe(e, env)
+					useful := first
+					for a := range live {
+						if !dist[a] && c05evalSafe(live[a], env) != wantV {
+							dist[a] = true
+							remaining--
+							useful = true
+						}
+					}
+					if useful {
+						first = false
+						used++
+						gotV := c05goatValue(j.src, env)
+						r.Eval(1)
+						r.Outcome(gotV)
+						if gotV != wantV {
+							ienv, benv := map[string]int32{}, map[string]bool{}
+							for n, v := range env {
+								if v.t == tBool {
+									benv[n] = v.b
+								} else {
+									ienv[n] = v.i
+								}
+							}
+							r.Fail(&report.Case{Kind: "value", Key: fmt.Sprintf("%s with %v %v", j.src, ienv, benv), Input: c05replay{Src: j.src, Env: ienv, Bools: benv}, Want: wantV, Got: gotV})
+						}
+						// the same expression with the operands written as literals, and as locals of a function
+						// (different instruction windows: PUSH/CONST and LOCALGET instead of GLOBALGET)
+						if used <= 2 {
+							for _, mode := range []string{"literals", "locals"} {
+								src2 := c05respell(j.src, env, names, mode)
+								g2 := c05evalSrc(src2)
+								r.Eval(1)
+								if g2 != wantV {
+									r.Fail(&report.Case{Kind: "value-" + mode, Key: src2, Input: c05replay{Src: src2, Raw: true}, Want: wantV, Got: g2})
+								}
+							}
+						}
+					}
+					if remaining == 0 {
+						break
+					}
+					// next assignment
+					q := 0
+					for q < len(names) {
+						idx[q]++
+						lim := len(c05intPool)
+						if ty[names[q]] == tBool {
+							lim = 2
+						}
+						if idx[q] < lim {
+							break
+						}
+						idx[q] = 0
+						q++
+					}
+					if q == len(names) {
+						break
+					}
+				}
+				r.Add("alternatives_distinguished", len(live)-remaining)
+				r.Add("alternatives_equivalent_on_pool", remaining)
+			}
+		})
+		total += len(jobs)
+		base += len(jobs)
+	}
+	flushJobs := func() {
+		process()
+		jobs = jobs[:0]
+	}
 	var gen func(n int, withPrefix, withParen bool)
 	gen = func(n int, withPrefix, withParen bool) {
 		opIdx := make([]int, n)
@@ -397,6 +543,9 @@ func c05run(r *report.Run) {
 					_ = nUnits
 					fe := c05expr{units, uops}
 					jobs = append(jobs, c05job{src: fe.String(), flat: fe})
+					if len(jobs) >= 200000 {
+						flushJobs()
+					}
 					if !withPrefix {
 						break
 					}
@@ -438,140 +587,8 @@ func c05run(r *report.Run) {
 	} else {
 		gen(3, false, true)
 	}
-	r.Set("expression_strings", len(jobs))
-	par.DoChunk(len(jobs), 256, func(k int) {
-		if r.Expired() {
-			return
-		}
-		j := jobs[k]
-		e, err := parser.ParseExpr(j.src)
-		if err != nil {
-			return // e.g. "a - -b" is fine, but "a & &b"-like strings never arise; anything go/parser rejects is not Go
-		}
-		var typings []map[string]c05type
-		typings = append(typings, c05typings(e, tInt)...)
-		typings = append(typings, c05typings(e, tBool)...)
-		if len(typings) == 0 {
-			return
-		}
-		// structure
-		want := c05tree(e)
-		got, status := c05goatTree(j.src)
-		r.Eval(1)
-		if got != want {
-			r.Fail(&report.Case{Kind: "structure", Key: j.src, Input: c05replay{Src: j.src, Struct: true}, Want: want, Got: got + " [" + status + "]"})
-		}
-		// alternatives that parse to a different structure
-		var alts []ast.Expr
-		for _, a := range c05alts(j.flat.units, j.flat.ops) {
-			ae, err := parser.ParseExpr(a)
-			if err != nil {
-				continue
-			}
-			if c05tree(ae) != want {
-				alts = append(alts, ae)
-			}
-		}
-		if len(alts) > 0 && len(j.flat.ops) >= 2 {
-			r.Nontrivial(j.src)
-		}
-		if k%9973 == 0 {
-			r.Sample(map[string]any{"expr": j.src, "go_grouping": want, "goatlang_tree": got, "typings": len(typings), "alternative_groupings": len(alts)})
-		}
-		// values
-		for _, ty := range typings {
-			names := make([]string, 0, len(ty))
-			for _, n := range c05names {
-				if _, ok := ty[n]; ok {
-					names = append(names, n)
-				}
-			}
-			// which alternatives are well-typed under this typing
-			var live []ast.Expr
-			for _, a := range alts {
-				if c05welltyped(a, ty) {
-					live = append(live, a)
-				}
-			}
-			// enumerate assignments in a fixed order until every live alternative is distinguished
-			dist := make([]bool, len(live))
-			remaining := len(live)
-			idx := make([]int, len(names))
-			used := 0
-			first := true
-			for tries := 0; tries < 3000; tries++ {
-				env := map[string]c05val{}
-				for q, n := range names {
-					if ty[n] == tBool {
-						env[n] = c05val{b: idx[q]%2 == 1, t: tBool}
-					} else {
-						env[n] = c05val{i: c05intPool[(idx[q]+3)%len(c05intPool)]} // start at 1,2,3,...
-					}
-				}
-				wantV := c05evalSafe(e, env)
-				useful := first
-				for a := range live {
-					if !dist[a] && c05evalSafe(live[a], env) != wantV {
-						dist[a] = true
-						remaining--
-						useful = true
-					}
-				}
-				if useful {
-					first = false
-					used++
-					gotV := c05goatValue(j.src, env)
-					r.Eval(1)
-					r.Outcome(gotV)
-					if gotV != wantV {
-						ienv, benv := map[string]int32{}, map[string]bool{}
-						for n, v := range env {
-							if v.t == tBool {
-								benv[n] = v.b
-							} else {
-								ienv[n] = v.i
-							}
-						}
-						r.Fail(&report.Case{Kind: "value", Key: fmt.Sprintf("%s with %v %v", j.src, ienv, benv), Input: c05replay{Src: j.src, Env: ienv, Bools: benv}, Want: wantV, Got: gotV})
-					}
-					// the same expression with the operands written as literals, and as locals of a function
-					// (different instruction windows: PUSH/CONST and LOCALGET instead of GLOBALGET)
-					if used <= 2 {
-						for _, mode := range []string{"literals", "locals"} {
-							src2 := c05respell(j.src, env, names, mode)
-							g2 := c05evalSrc(src2)
-							r.Eval(1)
-							if g2 != wantV {
-								r.Fail(&report.Case{Kind: "value-" + mode, Key: src2, Input: c05replay{Src: src2, Raw: true}, Want: wantV, Got: g2})
-							}
-						}
-					}
-				}
-				if remaining == 0 {
-					break
-				}
-				// next assignment
-				q := 0
-				for q < len(names) {
-					idx[q]++
-					lim := len(c05intPool)
-					if ty[names[q]] == tBool {
-						lim = 2
-					}
-					if idx[q] < lim {
-						break
-					}
-					idx[q] = 0
-					q++
-				}
-				if q == len(names) {
-					break
-				}
-			}
-			r.Add("alternatives_distinguished", len(live)-remaining)
-			r.Add("alternatives_equivalent_on_pool", remaining)
-		}
-	})
+	flushJobs()
+	r.Set("expression_strings", total)
 	if r.Expired() {
 		r.NotExhaustive("internal deadline reached")
 	}
